@@ -254,6 +254,8 @@ type Interp struct {
 	an       *Analysis
 	memo     map[memoKey]memoVal
 	ruleMemo map[string]memoVal
+	// leaderMemo: finished results of left-recursive leaders (memo model)
+	leaderMemo map[string]memoVal
 }
 
 func (ip *Interp) ruleName() string {
@@ -425,11 +427,27 @@ func (ip *Interp) record(matched bool, off int, want string) {
 func (ip *Interp) evalRule(r *Rule, pos int) (bool, int, any) {
 	key := r.Name + "@" + strconv.Itoa(pos)
 	useMemo := ip.O.Quirks[QMemo] || ip.O.Quirks[QMemoRebind]
+	if ip.O.LeftRec && ip.an == nil {
+		ip.an = Analyze(ip.G)
+		ip.seeds = map[string]memoVal{}
+		ip.growing = map[string]int{}
+	}
+	// the runtime's rule table: rules outside left-recursive cycles are answered from it
+	// (parseRuleMemoize); a rule of a cycle is not, except that the FINISHED result of a
+	// leader stays in the table at its start offset
+	lrRule := ip.O.LeftRec && ip.an.LeftRec[r.Name]
 	if useMemo {
 		if ip.ruleMemo == nil {
 			ip.ruleMemo = map[string]memoVal{}
+			ip.leaderMemo = map[string]memoVal{}
 		}
-		if m, ok := ip.ruleMemo[key]; ok {
+		if lrRule {
+			if m, ok := ip.leaderMemo[key]; ok {
+				if _, growing := ip.seeds[key]; !growing {
+					return m.ok, m.end, m.val
+				}
+			}
+		} else if m, ok := ip.ruleMemo[key]; ok {
 			return m.ok, m.end, m.val
 		}
 	}
@@ -437,13 +455,12 @@ func (ip *Interp) evalRule(r *Rule, pos int) (bool, int, any) {
 		if sd, ok := ip.seeds[key]; ok {
 			return sd.ok, sd.end, sd.val
 		}
-		if ip.an == nil {
-			ip.an = Analyze(ip.G)
-			ip.seeds = map[string]memoVal{}
-			ip.growing = map[string]int{}
-		}
-		if ip.an.LeftRec[r.Name] && ip.isHead(r, pos) {
-			return ip.grow(r, pos, key)
+		if lrRule && ip.isHead(r, pos) {
+			ok, end, val := ip.grow(r, pos, key)
+			if useMemo {
+				ip.leaderMemo[key] = memoVal{ok, end, val}
+			}
+			return ok, end, val
 		}
 	}
 	if ip.active[key] > 0 && !(ip.O.LeftRec && ip.an.LeftRec[r.Name] && !ip.isHeadFree(r, pos)) {
@@ -459,10 +476,16 @@ func (ip *Interp) evalRule(r *Rule, pos int) (bool, int, any) {
 	ok, end, val := ip.eval(r.Expr, pos, map[string]any{})
 	ip.rstack = ip.rstack[:len(ip.rstack)-1]
 	ip.active[key]--
-	if useMemo {
+	if useMemo && !lrRule {
 		ip.ruleMemo[key] = memoVal{ok, end, val}
 	}
 	return ok, end, val
+}
+
+// inLRRule reports whether the rule being evaluated belongs to a
+// left-recursive cycle (the runtime does not use the expression table there).
+func (ip *Interp) inLRRule() bool {
+	return ip.O.LeftRec && ip.an != nil && len(ip.rstack) > 0 && ip.an.LeftRec[ip.rstack[len(ip.rstack)-1].Name]
 }
 
 // isHead decides whether the left-recursive rule r, entered at pos, grows a
@@ -616,7 +639,7 @@ func (ip *Interp) eval(e *Expr, pos int, env map[string]any) (ok bool, end int, 
 	}
 	// (labeled expressions are never answered from the table: they bind their
 	// label in the current scope)
-	useMemo := (ip.O.Quirks[QMemo] || ip.O.Quirks[QMemoRebind]) && e.K != KLabel
+	useMemo := (ip.O.Quirks[QMemo] || ip.O.Quirks[QMemoRebind]) && e.K != KLabel && !ip.inLRRule()
 	if useMemo {
 		if ip.memo == nil {
 			ip.memo = map[memoKey]memoVal{}
